@@ -103,6 +103,12 @@ func TestSeeds(t *testing.T) {
 			}
 		}
 	})
+	t.Run("client-relay", func(t *testing.T) {
+		sels, modes, replies, tunnels := clientRelaySeeds()
+		for i := range sels {
+			oracleClientRelay(t, sels[i], modes[i], replies[i], tunnels[i])
+		}
+	})
 	t.Run("parsers", func(t *testing.T) {
 		for _, s := range parseAddrSeeds() {
 			oracleParseAddr(t, s)
